@@ -242,7 +242,7 @@ func contractPhase(cr *checkResult, w *symex.World, update bool) {
 }
 
 func clauseHasProp(c *symex.Contract, p string) bool {
-	for _, l := range [][]*symex.Clause{c.Ensures, c.Sites, c.Requires} {
+	for _, l := range [][]*symex.Clause{c.Ensures, c.Sites, c.Requires, c.Returns} {
 		for _, cl := range l {
 			if hasProp(cl.Props, p) {
 				return true
